@@ -256,8 +256,24 @@ impl<'tcx> Cx<'tcx> {
                     o.push(("bytes", J::Arr(b.iter().map(|x| n(*x)).collect())));
                 }
             }
-            ConstValue::Indirect { .. } => {
+            ConstValue::Indirect { alloc_id, offset } => {
                 o.push(("indirect", J::Bool(true)));
+                // `const TABLE: [u8; N] = [..];` : the bytes of the array itself
+                if let ty::Array(et, c) = t.kind() {
+                    if *et == self.tcx.types.u8 {
+                        if let Some(len) = c.try_to_target_usize(self.tcx) {
+                            if let rustc_middle::mir::interpret::GlobalAlloc::Memory(a) = self.tcx.global_alloc(alloc_id) {
+                                let a = a.inner();
+                                let start = offset.bytes_usize();
+                                let end = start + len as usize;
+                                if end <= a.len() {
+                                    let b = a.inspect_with_uninit_and_ptr_outside_interpreter(start..end);
+                                    o.push(("array_bytes", J::Arr(b.iter().map(|x| n(*x)).collect())));
+                                }
+                            }
+                        }
+                    }
+                }
                 // `const X: &[u8] = b"..";` / `&str`: a wide pointer stored in memory
                 if let ty::Ref(_, inner, _) = t.kind() {
                     let is_bytes = match inner.kind() {
